@@ -8,6 +8,7 @@ use substrate_fixed::traits::{Fixed, FromFixed, ToFixed};
 use vcore::out::Outs;
 use vcore::Out;
 use substrate_fixed::types::extra::{LeEqU128, LeEqU16, LeEqU32, LeEqU64, LeEqU8};
+use substrate_fixed::Wrapping;
 use substrate_fixed::{
     FixedI128, FixedI16, FixedI32, FixedI64, FixedI8, FixedU128, FixedU16, FixedU32, FixedU64, FixedU8,
 };
@@ -41,6 +42,15 @@ pub trait VF: Fixed + 'static {
     fn cmp_f64(st: usize, a: Self, t: f64, outs: &mut Outs);
     fn lossy_f32(a: Self) -> f32;
     fn lossy_f64(a: Self) -> f64;
+    /// Wrapping<F> binary operators; op 0 + 1 - 2 * 3 / 4 % 5 & 6 | 7 ^; form 0 `a op b`, 1 `&a op &b`,
+    /// 2 `&a op b`, 3 `a op &b`, 4 `a op= b`, 5 `a op= &b`
+    fn w_bin(a: Wrapping<Self>, b: Wrapping<Self>, op: u8, form: u8) -> Wrapping<Self>;
+    /// Wrapping<F> op integer of the underlying type; op 2 * 3 / 4 %
+    fn w_int(a: Wrapping<Self>, n: Self::Bits, op: u8, form: u8) -> Wrapping<Self>;
+    /// Wrapping<F> shifted by an integer of kind `kind` (vcore::INTS order) with raw bits `amt`
+    fn w_shift(a: Wrapping<Self>, kind: usize, amt: u128, right: bool, form: u8) -> Wrapping<Self>;
+    /// unary: op 0 `-a` 1 `!a`; by reference when `byref`
+    fn w_un(a: Wrapping<Self>, op: u8, byref: bool) -> Wrapping<Self>;
     /// byte views: which 0 le, 1 be, 2 ne
     fn to_bytes(a: Self, which: u8) -> Vec<u8>;
     /// `bytes` must have exactly width/8 elements
@@ -129,6 +139,19 @@ macro_rules! refops {
     };
 }
 
+macro_rules! wforms {
+    ($a:ident, $b:ident, $form:ident, $op:tt, $opa:tt) => {
+        match $form {
+            0 => $a $op $b,
+            1 => &$a $op &$b,
+            2 => &$a $op $b,
+            3 => $a $op &$b,
+            4 => { let mut x = $a; x $opa $b; x }
+            _ => { let mut x = $a; x $opa &$b; x }
+        }
+    };
+}
+
 macro_rules! impl_vf {
     ($Fx:ident, $Bits:ty, $UBits:ty, $LeEq:ident, $signed:expr, $w:expr, $neg:expr) => {
         impl<Frac: $LeEq + 'static> VF for $Fx<Frac> {
@@ -186,6 +209,39 @@ macro_rules! impl_vf {
             }
             fn lossy_f64(a: Self) -> f64 {
                 <f64 as substrate_fixed::traits::LossyFrom<Self>>::lossy_from(a)
+            }
+            fn w_bin(a: Wrapping<Self>, b: Wrapping<Self>, op: u8, form: u8) -> Wrapping<Self> {
+                match op {
+                    0 => wforms!(a, b, form, +, +=),
+                    1 => wforms!(a, b, form, -, -=),
+                    2 => wforms!(a, b, form, *, *=),
+                    3 => wforms!(a, b, form, /, /=),
+                    4 => wforms!(a, b, form, %, %=),
+                    5 => wforms!(a, b, form, &, &=),
+                    6 => wforms!(a, b, form, |, |=),
+                    _ => wforms!(a, b, form, ^, ^=),
+                }
+            }
+            fn w_int(a: Wrapping<Self>, n: $Bits, op: u8, form: u8) -> Wrapping<Self> {
+                match op {
+                    2 => wforms!(a, n, form, *, *=),
+                    3 => wforms!(a, n, form, /, /=),
+                    _ => wforms!(a, n, form, %, %=),
+                }
+            }
+            fn w_shift(a: Wrapping<Self>, kind: usize, amt: u128, right: bool, form: u8) -> Wrapping<Self> {
+                $crate::with_int!(kind, T => {
+                    let n = <T as IntRaw>::from_raw(amt);
+                    if right { wforms!(a, n, form, >>, >>=) } else { wforms!(a, n, form, <<, <<=) }
+                })
+            }
+            fn w_un(a: Wrapping<Self>, op: u8, byref: bool) -> Wrapping<Self> {
+                match (op, byref) {
+                    (0, false) => -a,
+                    (0, true) => -&a,
+                    (_, false) => !a,
+                    (_, true) => !&a,
+                }
             }
             fn to_bytes(a: Self, which: u8) -> Vec<u8> {
                 match which {
